@@ -384,6 +384,15 @@ class TaintInterp:
             return as_T(self.ev(args[0], env), ast.unparse(args[0]), line)
         if fname == "secrets.token_hex":
             return T([[slot("HEX", "secrets.token_hex", HEX_CHARS, line)]])
+        if fname == "secrets.token_urlsafe":
+            return T([[slot("LEX", "secrets.token_urlsafe",
+                            IDENT_CHARS | {"-"}, line)]])
+        if fname in ("uuid.uuid4", "uuid.uuid1"):
+            return T([[slot("LEX", fname, HEX_CHARS | {"-"}, line)]])
+        if fname in ("time.time", "random.random"):
+            return T([[slot("LEX", fname, set("0123456789.e-"), line)]])
+        if fname in ("time.time_ns", "random.randint", "random.getrandbits"):
+            return I()
         if short == "uncompress" and args:
             kind = env.get("$kind")
             ret = self.facts.get("uncompress_returns", {}).get(kind)
